@@ -133,11 +133,6 @@ package gomavlib
 //@                    logCallee(1, "time.After") && logArgDuration(1, 0) == reconnectPeriod && logIs(2, "recv", "time.After")
 //@   modifies e.first, ghost:log
 
-//@ func (*endpointCustom).provide returns (label, conn, err)
-//@   requires e != nil
-//@   ensures  err == nil && conn != nil
-//@   modifies nothing
-
 //@ func (*endpointServer).provide returns (label, conn, err)
 //@   ghostlog net.Listener.Accept, timednetconn.New+contract, fmt.Sprintf
 //@   requires e != nil && e.node != nil && e.listener != nil && e.conf != nil
@@ -644,3 +639,37 @@ package gomavlib
 //@              len(n.Endpoints) == len(conf.Endpoints)
 //@   ensures  [then-initialised] logLen() == 1 && logCallee(0, "(*gomavlib.Node).Initialize") && logArgIsPtr(0, 0, n) && err == logRetErr(0)
 //@   modifies ghost:log
+
+// ---------------------------------------------------------------- custom endpoint (C12/C13: the user's transport is closed by the endpoint, once)
+
+//@ func (*endpointCustom).provide returns (label, conn, err)
+//@   requires e != nil
+//@   ensures  err == nil && conn != nil
+//@   ensures  [channel-uses-the-users-transport-without-owning-it] dynIs(conn, "*gomavlib.removeCloser") && conn.(*removeCloser).wrapped == e.rwc
+//@   modifies nothing
+
+//@ func (*removeCloser).Close
+//@   ensures  [channel-close-does-not-close-the-users-transport] err == nil && logLen() == 0
+//@   modifies nothing
+
+//@ func (*removeCloser).Read returns (n, err)
+//@   ghostlog io.ReadWriteCloser.Read
+//@   requires r != nil && r.wrapped != nil
+//@   ensures  logLen() == 1 && logCallee(0, "io.ReadWriteCloser.Read") && n == int(logRetInt(0, 0)) && err == logRetErr(0)
+//@   modifies p[:], ghost:log
+
+//@ func (*removeCloser).Write returns (n, err)
+//@   ghostlog io.ReadWriteCloser.Write
+//@   requires r != nil && r.wrapped != nil
+//@   ensures  logLen() == 1 && logCallee(0, "io.ReadWriteCloser.Write") && logBytesAre(0, string(p)) && n == int(logRetInt(0, 0)) && err == logRetErr(0)
+//@   modifies ghost:log
+
+//@ func (*endpointCustom).close
+//@   requires e != nil && e.rwc != nil
+//@   ensures  [the-endpoint-closes-the-users-transport-once] logLen() == 1 && logCallee(0, "io.Closer.Close")
+//@   modifies ghost:log
+
+//@ func (*endpointCustom).initialize
+//@   requires e != nil
+//@   ensures  err == nil && e.rwc == e.conf.ReadWriteCloser
+//@   modifies e.rwc
